@@ -1,5 +1,214 @@
-/- Oracle driver for C04 (stub: replaced when the property's model is built). -/
+/-
+Oracle for C04: runs the hand mirrors of `Model/Optics.lean` (join, getter, setter, bimap, iso,
+shapePut/shapeGet, morphism, lensM) on an abstract record model: a structure value is a tree of
+cells (`Val.node`), a field lens is a cell index path.
+
+Case lines (sections separated by ` | `):
+  O <optic> | <val> | <ops>                 ops: `p <val>` put, `g` get, `gp` put(get)
+  S <n> <optic>*n | <val> | <ops>           ops: `p <val>*n`, `g`
+  I <optic_s> <optic_t> | <s> | <t> | <s'>  Iso: forward(s,t); inverse(t,s); inverse(t,s')
+  M <entry>* | <s> | <t> | <s'>             Morphism; entry: (n) nil | (i <optic> <optic>) | (m <entry>*)
+  K <zero> | <key universe> | <map> | <ops> map: nil | (m k v ...); ops: `p k <val>`, `g k`
+optic: (f i j ..) field path | (j o o) Join | (b o k) BiMap (+k, minus k) | (x o) BiMapS/B/I/F (identity
+conversion) | (g o a b) Getter a*x+b | (s o a b) Setter a*x+b
+val:   (r v ..) record | integer | any other token (opaque atom)
+-/
+import Golem.Model.Optics
 import Golem.Driver.Util
 namespace Golem.Driver.C04
-def main : IO Unit := IO.eprintln "oracle: no driver for C04 yet"
+open Golem.Model.Optics Golem.Driver
+
+inductive SExp where
+  | atom (s : String)
+  | list (xs : List SExp)
+  deriving Inhabited
+
+/-- tokens → s-expressions; returns the parsed items and the rest after a closing paren -/
+partial def parseItems : List String → List SExp → Option (List SExp × List String)
+  | [], acc => some (acc.reverse, [])
+  | ")" :: rest, acc => some (acc.reverse, ")" :: rest)
+  | "(" :: rest, acc =>
+    match parseItems rest [] with
+    | some (xs, ")" :: rest') => parseItems rest' (.list xs :: acc)
+    | _ => none
+  | t :: rest, acc => parseItems rest (.atom t :: acc)
+
+def tokens (s : String) : List String :=
+  words ((s.replace "(" " ( ").replace ")" " ) ")
+
+def parseSection (s : String) : Option (List SExp) :=
+  match parseItems (tokens s) [] with
+  | some (xs, []) => some xs
+  | _ => none
+
+inductive Val where
+  | int (i : Int)
+  | tok (s : String)
+  | node (fs : List Val)
+
+instance : Inhabited Val := ⟨.int 0⟩
+
+partial def Val.render : Val → String
+  | .int i => toString i
+  | .tok s => s
+  | .node fs => "(r" ++ String.join (fs.map fun f => " " ++ f.render) ++ ")"
+
+partial def toVal : SExp → Option Val
+  | .atom s => some (match s.toInt? with | some i => .int i | none => .tok s)
+  | .list (.atom "r" :: xs) => (xs.mapM toVal).map .node
+  | _ => none
+
+/-- read the cell at an index path -/
+def getPath : List Nat → Val → Val
+  | [], v => v
+  | i :: p, .node fs => getPath p (fs.getD i default)
+  | _, v => v
+
+/-- overwrite the cell at an index path -/
+def putPath : List Nat → Val → Val → Val
+  | [], _, a => a
+  | i :: p, .node fs, a => .node (fs.set i (putPath p (fs.getD i default) a))
+  | _, v, _ => v
+
+/-- a field lens (what `ForProduct1[T, A]` yields): the cell at a path -/
+def pathLens (p : List Nat) : Lens Val Val := ⟨getPath p, putPath p⟩
+
+def affine (a b : Int) : Val → Val
+  | .int x => .int (a * x + b)
+  | v => v
+
+def atomInt? : SExp → Option Int
+  | .atom s => s.toInt?
+  | _ => none
+
+def atomNat? : SExp → Option Nat
+  | .atom s => s.toNat?
+  | _ => none
+
+partial def toOptic : SExp → Option (Lens Val Val)
+  | .list (.atom "f" :: is) => (is.mapM atomNat?).map pathLens
+  | .list [.atom "j", x, y] => do
+    let a ← toOptic x
+    let b ← toOptic y
+    pure (join a b)
+  | .list [.atom "b", x, k] => do
+    let l ← toOptic x
+    let k ← atomInt? k
+    pure (bimap l (affine 1 k) (affine 1 (-k)))
+  | .list [.atom "x", x] => do
+    let l ← toOptic x
+    pure (bimap l id id)
+  | .list [.atom "g", x, a, b] => do
+    let l ← toOptic x
+    pure (getter l (affine (← atomInt? a) (← atomInt? b)))
+  | .list [.atom "s", x, a, b] => do
+    let l ← toOptic x
+    pure (setter l (affine (← atomInt? a) (← atomInt? b)))
+  | _ => none
+
+/-- ops of kind O over one lens -/
+def runO (l : Lens Val Val) : List SExp → Val → List String → Option (List String)
+  | [], _, out => some out.reverse
+  | .atom "g" :: r, s, out => runO l r s ((l.get s).render :: out)
+  | .atom "gp" :: r, s, out =>
+    let s' := l.put s (l.get s)
+    runO l r s' (("same:" ++ s'.render) :: out)
+  | .atom "p" :: v :: r, s, out =>
+    match toVal v with
+    | some v => let s' := l.put s v; runO l r s' (("same:" ++ s'.render) :: out)
+    | none => none
+  | _, _, _ => none
+
+def runS (ls : List (Lens Val Val)) : Nat → List SExp → Val → List String → Option (List String)
+  | _, [], _, out => some out.reverse
+  | fuel + 1, .atom "g" :: r, s, out =>
+    runS ls fuel r s (",".intercalate ((shapeGet ls s).map Val.render) :: out)
+  | fuel + 1, .atom "p" :: r, s, out =>
+    match (r.take ls.length).mapM toVal with
+    | some vs =>
+      if vs.length ≠ ls.length then none else
+      let s' := shapePut (ls.zip vs) s
+      runS ls fuel (r.drop ls.length) s' (("same:" ++ s'.render) :: out)
+    | none => none
+  | _, _, _, _ => none
+
+partial def toEntry : SExp → Option (Option (Isomorphism Val Val))
+  | .list [.atom "n"] => some none
+  | .list [.atom "i", a, b] => do
+    let sa ← toOptic a
+    let ta ← toOptic b
+    pure (some (iso sa ta))
+  | .list (.atom "m" :: es) => do
+    let l ← es.mapM toEntry
+    pure (some (morphismOf l))
+  | _ => none
+
+def runIso (i : Isomorphism Val Val) (s t s' : Val) : String :=
+  let t1 := i.forward s t
+  let s2 := i.inverse t1 s
+  let s3 := i.inverse t1 s'
+  s!"{s.render},{t1.render};{s2.render},{t1.render};{s3.render},{t1.render}"
+
+/-- association list → Go map value -/
+def mkMap : List SExp → Option (List (String × Val))
+  | [] => some []
+  | .atom k :: v :: r => do
+    let v ← toVal v
+    let m ← mkMap r
+    pure ((k, v) :: m)
+  | _ => none
+
+def renderMap (univ : List String) (m : GoMap String Val) : String :=
+  match m with
+  | none => "nil"
+  | some f => "(m" ++ String.join (univ.filterMap fun k => (f k).map fun v => " " ++ k ++ " " ++ v.render) ++ ")"
+
+def runK (zero : Val) (univ : List String) : Nat → List SExp → GoMap String Val → List String → Option (List String)
+  | _, [], _, out => some out.reverse
+  | fuel + 1, .atom "g" :: .atom k :: r, m, out =>
+    let _ : Inhabited Val := ⟨zero⟩
+    runK zero univ fuel r m ((lensM.get k m).render :: out)
+  | fuel + 1, .atom "p" :: .atom k :: v :: r, m, out =>
+    match toVal v with
+    | some v =>
+      match lensM.put k m v with
+      | .ok m' => runK zero univ fuel r m' (renderMap univ m' :: out)
+      | .error .nilMap => runK zero univ fuel r m ("panic:nilmap" :: out)
+    | none => none
+  | _, _, _, _ => none
+
+def finish : Option (List String) → String
+  | some out => ";".intercalate out
+  | none => "bad-op"
+
+def step (line : String) : String :=
+  match (line.splitOn " | ").map parseSection with
+  | [some (.atom "O" :: [o]), some [v], some ops] =>
+    match toOptic o, toVal v with
+    | some l, some s => finish (runO l ops s [])
+    | _, _ => "bad-op"
+  | [some (.atom "S" :: _ :: os), some [v], some ops] =>
+    match os.mapM toOptic, toVal v with
+    | some ls, some s => finish (runS ls ops.length ops s [])
+    | _, _ => "bad-op"
+  | [some [.atom "I", a, b], some [s], some [t], some [s']] =>
+    match toOptic a, toOptic b, toVal s, toVal t, toVal s' with
+    | some sa, some ta, some s, some t, some s' => runIso (iso sa ta) s t s'
+    | _, _, _, _, _ => "bad-op"
+  | [some (.atom "M" :: es), some [s], some [t], some [s']] =>
+    match es.mapM toEntry, toVal s, toVal t, toVal s' with
+    | some l, some s, some t, some s' => runIso (morphismOf l) s t s'
+    | _, _, _, _ => "bad-op"
+  | [some [.atom "K", z], some univ, some [m], some ops] =>
+    let univ := univ.filterMap fun | .atom k => some k | _ => none
+    match toVal z, m with
+    | some z, .atom "nil" => finish (runK z univ ops.length ops none [])
+    | some z, .list (.atom "m" :: kvs) =>
+      match mkMap kvs with
+      | some al => finish (runK z univ ops.length ops (some fun k => al.lookup k) [])
+      | none => "bad-op"
+    | _, _ => "bad-op"
+  | _ => "bad-op"
+
+def main : IO Unit := eachLine step
 end Golem.Driver.C04
